@@ -61,6 +61,20 @@ func runStress(r *relayInst, ms, seed, workers int) string {
 	note := func(s string) { firstBad.CompareAndSwap(nil, s) }
 	stop := time.Now().Add(time.Duration(ms) * time.Millisecond)
 	var wg sync.WaitGroup
+	// the periodic deny/allow prune of relay.Relay (there every PruneEvery; here every 2 ms, with entries that do expire)
+	wg.Add(1)
+	go func() {
+		defer wg.Done()
+		k := 0
+		for time.Now().Before(stop) {
+			r.ds.Deny("stale"+strconv.Itoa(k%7), now-100)
+			r.ds.Allow("old"+strconv.Itoa(k%5), now-100)
+			r.ds.Prune()
+			k++
+			time.Sleep(2 * time.Millisecond)
+		}
+		r.ds.Prune()
+	}()
 	for w := 0; w < workers; w++ {
 		wg.Add(1)
 		go func(w int) {
